@@ -13,11 +13,15 @@ from . import pyside
 from .pyside import canon, decode, encode, project
 
 
-def _is_union(ann):
+def _is_union(ann, depth=0):
+    """Is the annotation a union with several non-None members, or a container of one?"""
     import typing
+    if depth > 6:
+        return False
     if getattr(ann, "__origin__", None) is typing.Union:
-        return len([a for a in ann.__args__ if a is not type(None)]) > 1
-    return False
+        if len([a for a in ann.__args__ if a is not type(None)]) > 1:
+            return True
+    return any(_is_union(a, depth + 1) for a in getattr(ann, "__args__", ()) or ())
 
 
 def exc_info(e):
@@ -38,7 +42,7 @@ def exc_info(e):
                         note = n
                 if note is not None:
                     pos = "%s.%s" % (getattr(cur.cl, "__name__", "?"), note.name)
-                    atunion = _is_union(getattr(note, "type", None))
+                    atunion = atunion or _is_union(getattr(note, "type", None))   # sticky: the path went through a union
                 cur = sub
                 leaf = sub
                 continue
@@ -46,7 +50,7 @@ def exc_info(e):
                 sub = cur.exceptions[0]
                 for n in getattr(sub, "__notes__", []):
                     if hasattr(n, "type"):
-                        atunion = _is_union(n.type)
+                        atunion = atunion or _is_union(n.type)
                 cur = sub
                 leaf = cur
                 continue
